@@ -16,15 +16,15 @@
          Peer Down closes the bracket; Termination closes the session.
        Anything that does not fit (route monitoring outside a bracket, a second Peer Up, an unknown
        peer or prefix, a header that is not the session's, an unparsable record) is NOTED in st.viol.
-     - what the folded tables must equal (property layer): PreExpected, PostLower/PostUpper,
-       LocExpected, TableExpected - all from Speaker's inr / loc / up.
+     - what the folded tables must equal (property layer): PreOk, PostOk (a sandwich), LocOk / LocpOk,
+       and, in the trace spec, the MRT table and replay predicates - all from Speaker's inr / loc / up.
    The property text: "the BMP and MRT records the daemon emits for sessions and tables parse back to
    the same peers, routes and attributes".
 
-   MECHANISM layer (documented emitter, EmitFor): which records a conforming daemon writes for each
-   input event.  MCMonitor checks exhaustively in small scope that folding the emitted records yields
-   the expected tables and no note (emitter => property); the real daemon is judged on recorded
-   traces by spec/trace/MonitorTrace.tla (code => property). *)
+   MECHANISM layer (spec/MCMonitor.tla, the documented emitter): which records a conforming daemon writes
+   for each input event.  TLC checks exhaustively in small scope that folding the emitted records yields
+   the expected tables and no note (emitter => property); the real daemon is judged on recorded traces
+   by spec/trace/MonitorTrace.tla (code => property). *)
 EXTENDS Speaker
 
 NoTbl == [p \in Peers |-> [x \in Prefixes |-> NoRoute]]
